@@ -1,2 +1,6 @@
 """property id -> check function(tier, replay) for everything that is not a plain board-trace check"""
-CHECKS = {}
+import tablefam
+
+CHECKS = {
+    "C18": tablefam.check,
+}
